@@ -286,6 +286,13 @@ class Mon(object):
                     pk = h.choice(sorted(key for key in d2 if key != 'time'))
                     d2[pk] = [None] * k
                     what += ' (a call that fails: %s carries no numbers)' % pk
+                runit = self.sd.get('unit') or 's'
+                ounit = None
+                if half is None and h.random() < 0.3:
+                    # ... or under another default unit (assigned to spec.unit), which is set back afterwards
+                    ounit = {'s': 'ms', 'ms': 's', 'us': 'ms', 'ns': 'us'}[runit]
+                    what += ' under the default unit %s' % ounit
+                    s.unit = ounit
                 if half is not None:
                     what += ' under the sampling period %s%s' % half
                     s.set_sampling_period(half[0], half[1], real[2] if len(real) > 2 else 0.1)
@@ -294,6 +301,8 @@ class Mon(object):
                 finally:
                     if half is not None:
                         s.set_sampling_period(*real)
+                    if ounit is not None:
+                        s.unit = runit
             elif method == 'evaluate' and args and all(isinstance(a, (list, tuple)) and len(a) == 2 for a in args):
                 a2 = []
                 for name, samples in args:
